@@ -193,6 +193,18 @@ func (g *treeGen) rows() *T {
 				return tObj("p", tInt(int64(g.r.Intn(100))), "q", tStr("v"))
 			}
 			return tObj()
+		case 6:
+			// deeper cells: nested arrays and maps, so that sub-tables get sub-tables
+			switch g.r.Intn(4) {
+			case 0:
+				return tArr(tArr(tInt(int64(g.r.Intn(50))), tStr("w")), tArr(tInt(7)))
+			case 1:
+				return tArr(tObj("p", tInt(int64(g.r.Intn(50)))), tObj("p", tInt(3), "q", tNull()))
+			case 2:
+				return tObj("p", tArr(tInt(int64(g.r.Intn(50))), tInt(2)), "q", tObj("r", tStr("s")))
+			default:
+				return tArr(tArr(tArr(tInt(int64(g.r.Intn(9))))))
+			}
 		default:
 			return tInt(int64(g.r.Intn(3000)) - 100)
 		}
@@ -342,6 +354,8 @@ func boundaryTrees(full bool) []*T {
 		tArr(tArr(tObj("a", tInt(1), "b", tInt(2)), tInt(5)), tArr(tObj("a", tInt(1)), tInt(6))),
 		tArr(tArr(tInt(1), tArr(tInt(2))), tArr(tArr(tInt(3)), tInt(4))),
 		tArr(tArr(tObj("a", tInt(1))), tArr(tArr(tInt(5)))),
+		tArr(tArr(tObj("a", tInt(1))), tArr(tArr(tArr(tInt(5))))), // a column with a map in one row, an array in the other
+		tArr(tObj("k", tArr(tArr(tInt(1), tInt(2)))), tObj("k", tObj("p", tInt(3))), tObj("j", tInt(4))),
 		tArr(tObj("a", tInt(1), "b", tStr("x")), tObj("a", tStr("long string here"), "b", tInt(2))),
 	)
 	// width boundaries for pretty
